@@ -106,6 +106,15 @@ def main():
         print("\n".join(vlib.tail_lines(res["log"], 30)))
         return 1 if res["fail"] or not res["drv"].get("validate_ok") else 0
 
+    # stale replay files of this tier would be mistaken for current findings
+    rdir = os.path.join(vlib.VERIF, "replays", pid)
+    if os.path.isdir(rdir):
+        for fn in os.listdir(rdir):
+            if ("_%s_" % tier) in fn:
+                try:
+                    os.unlink(os.path.join(rdir, fn))
+                except OSError:
+                    pass
     # 0. translator: regenerate Lean data (Gen/*.lean) from /repo's current sources
     pre_errors = []
     if spec.get("pre"):
@@ -120,10 +129,15 @@ def main():
     # extraction-style obligations (generated Lean data compared by `decide`) are part of the Props module
 
     # 2/3. correspondence + monitors
+    drv_error = None
+    try:
+        vlib.verifdrv_path()
+    except vlib.BuildError as e:
+        drv_error = str(e)[-2000:]
     rng = random.Random(seed * 7919 + 13)
     jobs = []
     build_errors = []
-    for part in spec["parts"]:
+    for part in ([] if drv_error else spec["parts"]):
         try:
             exe = build_part(part)
         except vlib.BuildError as e:
@@ -223,6 +237,8 @@ def main():
             "; forbidden tokens: " + "; ".join(lean.get("forbidden", [])[:5]) if lean.get("forbidden") else ""))
     for pe in pre_errors:
         broken.append(pe)
+    if drv_error:
+        broken.append("model driver does not build: " + drv_error)
     for b in build_errors:
         broken.append("instrumented build failed for %s: %s" % (b["part"], b["error"][-600:]))
     if diverges:
